@@ -51,6 +51,8 @@ structure PW where
   headerCount : Nat := 0
   /-- msgWriter.rawPartHeaders: set for the S/MIME signing pre-render -/
   rawPartHeaders : Bool := false
+  /-- msgWriter.userBoundary: the outermost multipart of this render has taken the user's boundary -/
+  userBnd : Bool := false
 deriving Repr
 
 def PW.depth (p : PW) : Nat := p.stack.length
@@ -198,13 +200,33 @@ def stageHeaders (s : MsgState) (p : PW) : PW :=
     | some as => p.header true kn.2 (as.map (·.str))
     | none => p) p
 
-/-- the boundary handed to startMP: the user's boundary only for the outermost multipart, else the cache -/
+/-- the boundary handed to startMP (getMultipartBoundary): the user's boundary for the outermost multipart;
+    else the boundary remembered from an earlier render - unless that is the user's boundary and the
+    outermost multipart of this render has taken it (a layer that was the outermost one earlier and is
+    nested now): then none, and startMP draws a fresh one -/
 def givenBoundary (s : MsgState) (p : PW) (cached : Bytes) : Bytes :=
-  if !s.boundary.isEmpty && p.depth == 0 then s.boundary else cached
+  if !s.boundary.isEmpty && p.depth == 0 then s.boundary
+  else if p.userBnd && cached == s.boundary then []
+  else cached
+
+/-- getMultipartBoundary notes that the outermost multipart has taken the user's boundary -/
+def markUser (s : MsgState) (p : PW) : PW :=
+  if !s.boundary.isEmpty && p.depth == 0 then { p with userBnd := true } else p
+
+@[simp] theorem markUser_acts (s : MsgState) (p : PW) : (markUser s p).acts = p.acts := by
+  unfold markUser; split <;> rfl
+@[simp] theorem markUser_stack (s : MsgState) (p : PW) : (markUser s p).stack = p.stack := by
+  unfold markUser; split <;> rfl
+@[simp] theorem markUser_depth (s : MsgState) (p : PW) : (markUser s p).depth = p.depth := by
+  unfold PW.depth; simp
+@[simp] theorem markUser_raw (s : MsgState) (p : PW) : (markUser s p).rawPartHeaders = p.rawPartHeaders := by
+  unfold markUser; split <;> rfl
+@[simp] theorem markUser_headerCount (s : MsgState) (p : PW) : (markUser s p).headerCount = p.headerCount := by
+  unfold markUser; split <;> rfl
 
 /-- one `if msg.hasX() { startMP; cache; DoubleNewLine at depth 1 }` block -/
 def openLayer (s : MsgState) (p : PW) (mimeType cached fresh : Bytes) : PW × Bytes :=
-  let (p, b) := p.startMP mimeType (givenBoundary s p cached) fresh
+  let (p, b) := (markUser s p).startMP mimeType (givenBoundary s p cached) fresh
   (if p.depth == 1 then p.str (crlf ++ crlf) else p, b)
 
 /-- the S/MIME wrapper and the mixed / related / alternative layers. The three layer decisions only
